@@ -85,9 +85,9 @@ add("C15", "model_checking",
     "For every server mode and client-auth setting the honest trace is the default and each deviation is applied at each message; conformance of an edited sequence is decided by the message grammar of the ECC suites. Never a panic, never an endpoint waiting after end of stream, never completion after a non-conformant sequence or malformed message, always completion of a conformant variant.",
     "conformant variations (warning alerts, HelloRequest to a client, re-fragmentation) are recorded, not judged", "DESIGN.md §3 C15")
 add("C16", "model_checking",
-    "bounded exhaustive exploration of connection/rotation/configuration histories (all operation sequences to depth 3/4 over 13 operations) on real Configs with an LRU client cache, compared with a resumption reference model; fault enumeration over every byte/truncation of a ticket and authentic tickets with altered state",
-    "Every history within the depth bound runs on real client and server configurations; the model (key rings, LRU cache entries, policies) predicts MUST/MUST NOT/MAY resume for each connection and the observed DidResume, parameters, exported keys and data are compared; raw replays of a ticket-bearing ClientHello with every ticket byte changed never resume and never crash.",
-    "resumption observed through DidResume and the shape of the server's first flight", "DESIGN.md §3 C16")
+    "bounded exhaustive exploration of connection/rotation/configuration histories on real Configs: library pairs (all sequences to depth 3/4 over 13 operations, rotation-focused variants to depth 4/6) against a resumption reference model; an independent resuming client (gmref, own key derivation and abbreviated handshake) in all histories to depth 4/5 over 8 operations; crypto/tls as the peer in each role (TLS 1.2, depth 5/7); fault enumeration over every byte/truncation of a ticket and authentic tickets with altered state",
+    "Every history within the depth bound runs on real client and server configurations; the model (key rings, cache entries, policies) predicts MUST/MUST NOT/MAY resume for each connection and the observed DidResume, parameters, peer identity, exported keys and data are compared; a client without the master secret is never accepted; raw replays of a ticket-bearing ClientHello with every ticket byte changed never resume and never crash.",
+    "resumption observed through DidResume and the shape of the server's first flight; gmref and crypto/tls are the independent peers", "DESIGN.md §3 C16")
 
 add("C20", "model_checking",
     "stateless model checking of goroutine interleavings under a controlled cooperative scheduler with iterative preemption bounding (<=2/3 preemptions), scheduling points at every sync/atomic operation (shims) and at every statement of functions sharing plain memory (AST instrumentation via go build -overlay), including gmtls connections over an in-memory transport whose blocking is a scheduler wait; separate free-running pass under the race detector",
